@@ -569,13 +569,13 @@ func (tkn *Tokenizer) Scan() (int, []byte) {
 		case '&':
 			if tkn.lastChar == '&' {
 				tkn.next()
-				return AND, nil
+				return AND, []byte("&&")
 			}
 			return int(ch), nil
 		case '|':
 			if tkn.lastChar == '|' {
 				tkn.next()
-				return OR, nil
+				return OR, []byte("||")
 			}
 			return int(ch), nil
 		case '?':
